@@ -132,8 +132,9 @@ reg(C16Check())
 class C18Check:
     cid = "C18"
     level = "exploration"
-    chunk = 60
-    rule = ("random sessions: 1-3 simultaneous ControlSessions (various widths) on one busy TaskPool/SimpleTaskPool, 6-30 lines each drawn from: grammar-generated valid commands, "
+    chunk = 20
+    rule = ("family 'sockets': 2-3 raw clients of one real Unix/TCP control server send probes, invalid lines and commands while clients (preferably the one that connected first) leave; "
+            "family 'random': 1-3 simultaneous ControlSessions (various widths) on one busy TaskPool/SimpleTaskPool, 6-30 lines each drawn from: grammar-generated valid commands, "
             "by-construction invalid lines (unknown command, missing positional, non-numeric int, unknown option, surplus positional, unresolvable dotted path), help requests, "
             "token-level mutants of valid lines (drop/duplicate/swap/=-form/abbreviation), printable junk up to 4 kB incl. non-ASCII, and probe commands; "
             "waiting commands are parked and released from another session; non-trivial = at least one invalid/junk line and one probe were answered; distinct = distinct scenario seed")
@@ -147,11 +148,11 @@ class C18Check:
         self.mods = control.load_control(mods.load())
 
     def families(self, tier):
-        return [("random", 600 if tier == "quick" else 30000)]
+        return [("random", 600 if tier == "quick" else 30000), ("sockets", 60 if tier == "quick" else 2000)]
 
     def floors(self, tier):
         return scaled_floors("C18", ["C18.lines.invalid", "C18.lines.junk", "C18.lines.mutant", "C18.lines.help", "C18.lines.valid",
-                                     "C18.probe_ok", "C18.isolation_ok", "C18.short_after_long", "C18.waiting_released"], tier, 50)
+                                     "C18.probe_ok", "C18.isolation_ok", "C18.short_after_long", "C18.waiting_released", "C18.socket_probe_ok", "C18.socket_client_left"], tier, 50)
 
     def timeout(self, tier):
         return 900 if tier == "quick" else 7200
@@ -159,16 +160,18 @@ class C18Check:
     def make_case(self, fam, seed, i, tier):
         from . import c18
 
+        if fam == "sockets":
+            return c18.gen_socket_case(random.Random(f"{seed}:C18s:{i}"))
         return c18.gen_scenario(random.Random(f"{seed}:C18:{i}"))
 
     def run_case(self, case, verbose=False):
         from . import c18
 
-        w = c18.World(self.mods, case)
+        w = c18.SocketWorld(self.mods, case) if case.get("sockets") else c18.World(self.mods, case)
         r = w.run()
         sit = r["sit"]
         out = {"viol": r["viol"], "sit": sit, "inconclusive": r["inconclusive"],
-               "nontrivial": (sit.get("C18.lines.invalid", 0) + sit.get("C18.lines.junk", 0)) > 0 and sit.get("C18.probe_ok", 0) > 0,
+               "nontrivial": ((sit.get("C18.lines.invalid", 0) + sit.get("C18.lines.junk", 0)) > 0 and sit.get("C18.probe_ok", 0) > 0) or sit.get("C18.socket_probe_ok", 0) > 1,
                "sig": str(case["seed"]), "extra": {"lines": sum(v for k, v in sit.items() if k.startswith("C18.lines."))}}
         if r["viol"]:
             out["log_tail"] = w.log[-60:]
@@ -262,7 +265,7 @@ class C19Check:
     def floors(self, tier):
         return scaled_floors("C19", ["C19.handshakes", "C19.probe_ok", "C19.stopped", "C19.cli_ok", "C19.started.tcp", "C19.started.unix", "C19.disconnect.abort",
                                      "C19.disconnect.eof", "C19.disconnect.close", "C19.stop_with_clients.1", "C19.connect_after_stop_refused",
-                                     "C19.probe_ok_while_parked", "C19.handshake_while_other_pending", "C19.stale_socket_file"], tier, 18)
+                                     "C19.probe_ok_while_parked", "C19.handshake_while_other_pending", "C19.stale_socket_file", "C19.blank_probe_clients"], tier, 18)
 
     def timeout(self, tier):
         return 900 if tier == "quick" else 7200
